@@ -27,6 +27,7 @@ Ops ==   { [op |-> "set", m |-> m, key |-> k, val |-> v] : m \in MapVars, k \in 
     \cup { [op |-> "mutk"] }
     \cup { [op |-> "newkj"] }
     \cup { [op |-> "mutj"] }
+    \cup { [op |-> "mutkeys", m |-> m] : m \in MapVars }
 
 vars == <<st, prev, lastop, hist>>
 Init == st = InitState /\ prev = InitState /\ lastop = [op |-> "init"] /\ hist = <<>>
